@@ -17,7 +17,8 @@ EXPLANATION = (
     " (h) HostnameResolutionEvent sends are lossless; keys of hostname_resolvers and addr are folded by one function."
     " (i) A function that compares a record type with A or AAAA compares it with both. The doubling schedule of the hostname search (C19a) is checked here too."
     " (j) refresh_due_hostname_resolutions returns one entry per due address record (name, address), not one per host."
-    " (k) The tail of handle_response always walks the address changes for the hostname resolvers.")
+    " (k) The tail of handle_response always walks the address changes for the hostname resolvers."
+    " (l) add_hostname_resolver stores the (listener, deadline) pair on every path. (m) The due address records returned by refresh_due_hostname_resolutions are walked in a loop of their own: one query per record.")
 UNDECIDED = ["which addresses are reported over which arrival history", "exact time of SearchTimeout",
              "doubling schedule (decided under C19)"]
 
@@ -222,6 +223,8 @@ def run(ctx, P):
     r2.refresh_result_is_per_record(ctx, P, "C17j")
     from . import r4
     r4.response_tail_always_runs(ctx, P, "C17k", want=("addresses",))
+    r4.resolver_entry_always_rewritten(ctx, P, "C17l")
+    r4.one_refresh_query_per_due_record(ctx, P, "C17m")
     from . import c19
     c19.clause_a(ctx, P)       # the doubling schedule of the hostname search (shared with C19)
     from . import c03
